@@ -14,9 +14,7 @@ Local Open Scope Z_scope.
 Inductive dsl_abort :=
 | DaFuel        (* a while/for loop exceeded the loop budget L *)
 | DaDomain      (* outside the modelled/exact domain (inexact number, unmodelled conversion ...) *)
-| DaCycle       (* a container reachable from itself is passed to a structural traversal: the code recurses without bound (F-C15-a) *)
-| DaNullImport  (* a `using` import evaluates to null: VMOps::FindVarImportRef dereferences a null Object::Ptr (F-C15-f) *)
-| DaIsectAlias. (* intersection() with >= 3 arguments pads its own running result (which doubles as input) with nulls (F-C15-g) *)
+| DaCycle       (* a container reachable from itself is passed to a structural traversal: the code recurses without bound (F-C15-a) *).
 
 (* script error kinds (all are "ScriptError" to a program: try/except cannot tell them apart) *)
 Inductive dsl_errkind := DkType | DkName | DkRange | DkStack | DkUser | DkArg.
